@@ -74,7 +74,8 @@ AttrSources == {"attr", "var-in-attr", "expr-string", "style-attr", "cfg-svg-sty
 \* characters the debug rendition strips)
 \* strings around the CDATA terminator, for settings that flow into the style sheet
 CDStrs == UNION {[1..k -> {"]", ">", "a"}] : k \in 3..4}
-CDataSources == {"cfg-font", "cfg-background"}
+          \cup {<<"]", "]", ">", "]", "]", ">">>, <<"]", "]", ">", "a", "]", "]", ">">>, <<"a", "]", "]", ">", "]", "]", "]", ">", "a">>}
+CDataSources == {"cfg-font", "cfg-background", "cfg-font+background"}
 DashStrs == UNION {[1..k -> {"-", ">", "<", "Q"}] : k \in 3..4}
 TextSources == {"text-attr", "content", "text-element", "var-in-text", "cdata-content"}
 \* (the comment text may also arrive through a variable, or through a chain of variables
